@@ -124,7 +124,7 @@ func vh_C14_L2_deferred_reset() {
 		vassert(len(a.reconfigRequests) == 1, "the request is kept for later")
 	}
 	// the response goes out
-	pkts := vWriterPass(a)
+	pkts := vWriterWake(a)
 	found := false
 	for _, raw := range pkts {
 		p := vDecode(raw)
